@@ -16,6 +16,71 @@ PROPS = {
                      "script gas exhaustion and IBC-originated requests are not generated"],
         nt_floor=0.2,
     ),
+    "C05": dict(
+        stages=[dict(test="TestC05", quick=(16, 30), thorough=(16, 2000), timeout=dict(quick=900, thorough=3300))],
+        rule="case = group (n 2-6, threshold, MaxDESize 3-8, SigningPeriod 1-4, MaxSigningAttempt 1-4, fee) + 10-60 late-bound ops "
+             "(submit DEs / reset / signing request direct or via oracle result / partial signatures / activate / end block, plus a "
+             "constructed request-partial-timeout-retry sequence) on the real app; non-trivial = >=1 retry after time-out AND >=1 failed "
+             "(rejected / rolled back) signing creation AND >=1 reset while a signing is pending; distinct = hash of case JSON",
+        explanation="history invariant with a FIFO model per member: every assignment seen in request_signature events must be the "
+                    "member's oldest queued pair, never assigned before, registered by that member, member active and queue non-empty; "
+                    "after every block the on-chain queue must be an order-preserving subsequence of the model queue (nothing reset, "
+                    "assigned, reordered or resurrected), never above MaxDESize; over-limit submissions must be rejected",
+        assumptions=["signing sources generated: direct requests and oracle results; tunnel and transition sources are exercised by C08/C18",
+                     "a pair that disappears without being assigned is counted (lost_unassigned), not flagged: the statement is about reuse"],
+        nt_floor=0.02,
+    ),
+    "C10": dict(
+        stages=[dict(test="TestC10", quick=(16, 30), thorough=(16, 2000), timeout=dict(quick=900, thorough=3300))],
+        rule="same op vocabulary as C05 with more partial/complete signature submissions; non-trivial = >=1 time-out of an attempt with a "
+             "partial set of submitters AND >=1 success after a retry; distinct = hash of case JSON",
+        explanation="per-signing reference model (status, attempt, assignees, expiry = creation height + SigningPeriod) checked after every "
+                    "block against events and state: success exactly when all assignees of the current attempt submitted, time-out exactly at "
+                    "expiry (never earlier, never missed), exactly the idle active assignees deactivated and nobody else, retry xor failure, "
+                    "attempt bounded by MaxSigningAttempt, one outcome event, owner mapping removed, interim data of expired attempts "
+                    "removed, and no signing WAITING after MaxAttempt*(Period+1)+2 idle blocks",
+        assumptions=["tss params are not changed during a history", "liveness is checked as bounded termination"],
+        nt_floor=0.05,
+    ),
+    "C12": dict(
+        stages=[dict(test="TestC12", pkg="c12", quick=(16, 6), thorough=(16, 400), timeout=dict(quick=900, thorough=3300)),
+                dict(test="TestC12Pure", pkg="c12", quick=(4, 500), thorough=(16, 12000), timeout=dict(quick=600, thorough=3300))],
+        rule="TestC12: oracle history of 5-40 blocks on the real app, then several proof queries (single / multi / request count; explicit and "
+             "latest height) against a fabricated CometBFT block (drawn header fields, 1-12 secp256k1 validators, really signed commit with "
+             "commit/nil/absent votes, rounds, timestamps, chain-id length up to the 127-byte vote limit); non-trivial = a result proof verified "
+             "with an IAVL path of >=3 steps at a state >=2 versions old with >=2 signatures. TestC12Pure: header/signature extraction alone with "
+             "heights up to 2^63-1; non-trivial = >=2 signatures and height >=128; distinct = hash of case JSON",
+        explanation="oracle = Go port of the bridge verification algorithm (sha256 leaf/inner hashes, five positional multistore siblings, header "
+                    "merkle parts, canonical vote bytes rebuilt from prefix/suffix/timestamp/chain id, secp256k1 ecrecover, ABI decoding) written "
+                    "without the proof package's helpers; recomputed oracle root, app hash (the application's own commit), block hash and signer "
+                    "set must match, and EvmProofBytes must decode to the same values",
+        assumptions=["Solidity contract itself not executed; secp256k1 validators only", "headers outside the fixed vote format (chain id too long) are only counted"],
+        nt_floor=0.2,
+    ),
+    "C13": dict(
+        stages=[dict(test="TestC13Signing", quick=(16, 25), thorough=(16, 1500), timeout=dict(quick=900, thorough=3300))],
+        rule="TSS history (see C05) with fee_per_signer in {0, 10uband, 7uband, 3uband+2uatom}, fee limits enough/exact/one-less/zero/"
+             "one-denom-only, a poor requester; non-trivial = a request at an exact limit boundary or a payout after a retry; distinct = hash of case JSON",
+        explanation="bank-balance accounting model: expected balance of every member, requester and the bandtss module account is updated "
+                    "from the statement (escrow fee_per_signer x threshold on an accepted request, pay fee_per_signer to each assignee of the "
+                    "successful current-group attempt, nothing on failure) and compared with the bank after every block; charged fee within "
+                    "the caller's limit per denom; escrow >= outstanding obligations",
+        assumptions=["mint inflation off so no block rewards blur balances", "data-request fees (oracle side) are covered by the separate stage once added",
+                     "governance (free) requests and incoming-group signings are exercised under C18"],
+        nt_floor=0.2,
+    ),
+    "C17": dict(
+        stages=[dict(test="TestC17", pkg="c17", quick=(16, 25), thorough=(16, 2500), timeout=dict(quick=900, thorough=3300))],
+        rule="case = tunnel params (multi-denom MinDeposit, base fee), 3 accounts, 20-60 late-bound ops (create/deposit/withdraw/activate/"
+             "deactivate/trigger/fund/end block) on 1-3 tunnels with amounts placed around the minimum, own deposit and balance; non-trivial = "
+             ">=2 simultaneous depositors on one tunnel AND >=1 successful withdrawal crossing the minimum; distinct = hash of case JSON",
+        explanation="reference ledger advanced only by successful txs; after every block: TotalDeposit == sum of deposit records == ledger, "
+                    "module balance == deposits + recorded fees, exact balance deltas, no overdraw, activation only by creator with total >= min, "
+                    "active => total >= min, IsActive <=> active index <=> processed at end block, rejected ops change nothing",
+        assumptions=["no packet is ever sent successfully (no signing group / IBC channel), so TotalFees stays 0",
+                     "end-block deactivation for an unfunded fee payer is outside the statement and only counted"],
+        nt_floor=0.2,
+    ),
     "C09": dict(
         stages=[
             dict(test="TestC09Pure", quick=(8, 8000), thorough=(16, 400000), timeout=dict(quick=600, thorough=3000)),
